@@ -458,6 +458,13 @@ func runCheck(ck *Check, tier string, seed int64, replay string, keepEvidence bo
 			cov["samples"] = []any{}
 		}
 		for k, v := range res.Extra {
+			if k == "exhaustive" {
+				// the schema wants a boolean; a textual description of the enumerated
+				// dimension goes under its own key
+				if _, isBool := v.(bool); !isBool {
+					k = "exhaustive_dimension"
+				}
+			}
 			if _, dup := cov[k]; !dup {
 				cov[k] = v
 			}
